@@ -65,11 +65,36 @@ unsafe impl Send for DwPtr {}
 
 type WaitFuture = std::pin::Pin<Box<dyn std::future::Future<Output = crate::dds::result::WriteResult<bool, ()>>>>;
 
+/// A waker of generation `gen`: a wake counts in `hits` only while `gen` is still the latest generation handed to
+/// the future (Future::poll: "only the Waker from the most recent call should be scheduled to receive a wakeup").
+pub struct GenWaker {
+  pub gen: u64,
+  pub latest: Arc<std::sync::atomic::AtomicU64>,
+  pub hits: Arc<FlagWaker>,
+  pub stale: Arc<std::sync::atomic::AtomicU64>,
+}
+impl std::task::Wake for GenWaker {
+  fn wake(self: Arc<Self>) {
+    self.wake_by_ref()
+  }
+  fn wake_by_ref(self: &Arc<Self>) {
+    use std::sync::atomic::Ordering::SeqCst;
+    if self.latest.load(SeqCst) == self.gen {
+      self.hits.0.fetch_add(1, SeqCst);
+    } else {
+      self.stale.fetch_add(1, SeqCst);
+    }
+  }
+}
+
 pub struct WriterBench {
   pub cfg: WbCfg,
   // NOTE field order = drop order: the future and the waiter thread borrow `dw`
   async_wait: Option<WaitFuture>,
   pub async_flag: Arc<FlagWaker>,
+  // every poll of the ack-wait future hands over a waker of a new generation: only the latest one counts
+  async_gen: Arc<std::sync::atomic::AtomicU64>,
+  async_stale: Arc<std::sync::atomic::AtomicU64>,
   sync_wait: Option<std::thread::JoinHandle<(Result<bool, String>, f64)>>,
   /// a second application thread waiting on the same DataWriter at the same time
   sync_wait2: Option<std::thread::JoinHandle<(Result<bool, String>, f64)>>,
@@ -168,7 +193,7 @@ impl WriterBench {
     let mr = MessageReceiver::new(e.dp.guid_prefix(), acknack_tx, spdp_tx, None);
     let mut own_prefix = [0u8; 12];
     own_prefix.copy_from_slice(e.dp.guid_prefix().as_ref());
-    WriterBench { cfg, async_wait: None, async_flag: Arc::new(FlagWaker(Default::default())), sync_wait: None, sync_wait2: None, writer, dw: Box::new(dw), mr, acknack_rx, _spdp_rx: spdp_rx, status_rx: pstatus_rx, own_prefix, writer_eid, qos }
+    WriterBench { cfg, async_wait: None, async_flag: Arc::new(FlagWaker(Default::default())), async_gen: Default::default(), async_stale: Default::default(), sync_wait: None, sync_wait2: None, writer, dw: Box::new(dw), mr, acknack_rx, _spdp_rx: spdp_rx, status_rx: pstatus_rx, own_prefix, writer_eid, qos }
   }
 
   pub fn writer_guid(&self) -> [u8; 16] {
@@ -320,7 +345,8 @@ impl WriterBench {
   }
   /// None = Pending
   pub fn async_wait_poll(&mut self) -> Option<Result<bool, String>> {
-    let waker = std::task::Waker::from(self.async_flag.clone());
+    let gen = self.async_gen.fetch_add(1, std::sync::atomic::Ordering::SeqCst) + 1;
+    let waker = std::task::Waker::from(Arc::new(GenWaker { gen, latest: self.async_gen.clone(), hits: self.async_flag.clone(), stale: self.async_stale.clone() }));
     let mut cx = std::task::Context::from_waker(&waker);
     match self.async_wait.as_mut() {
       None => Some(Err("no future".to_string())),
@@ -333,8 +359,13 @@ impl WriterBench {
       },
     }
   }
+  /// wakes that reached the waker handed over at the most recent poll
   pub fn async_wake_count(&self) -> u64 {
     self.async_flag.0.load(std::sync::atomic::Ordering::SeqCst)
+  }
+  /// wakes that went to a waker of an earlier poll (a real executor may have dropped that task)
+  pub fn async_stale_wake_count(&self) -> u64 {
+    self.async_stale.load(std::sync::atomic::Ordering::SeqCst)
   }
 
   pub fn history_sns(&self) -> Vec<i64> {
